@@ -25,6 +25,21 @@ void *vf_mmap(void *a, size_t len, int prot, int flags, int fd, off_t off) { voi
 int vf_munmap(void *a, size_t len) { if (a == map_addr) map_addr = NULL; return munmap(a, len); }
 static void drop_map(void) { if (map_addr) { munmap(map_addr, map_len); map_addr = NULL; } }
 
+/* ---- the real mtbl_verify binary (exit status and stdout), used on a deterministic subset ---- */
+static int verify_tool(const char *path, int *said_ok) {
+	const char *exe = getenv("VERIF_TOOL_MTBL_VERIFY"); *said_ok = 0;
+	if (!exe) return -2;
+	int pfd[2]; if (pipe(pfd)) { fprintf(stderr, "cksum: abort at line %d errno=%d\n", __LINE__, errno); abort(); }
+	fflush(stdout);
+	pid_t pid = fork();
+	if (pid == 0) { dup2(pfd[1], 1); close(pfd[0]); close(pfd[1]); int dn = open("/dev/null", O_WRONLY); dup2(dn, 2); char *argv[] = { "mtbl_verify", (char *) path, NULL }; execv(exe, argv); _exit(127); }
+	close(pfd[1]);
+	char buf[4096]; size_t n = 0; for (;;) { ssize_t r = read(pfd[0], buf + n, sizeof buf - 1 - n); if (r <= 0) break; n += r; if (n >= sizeof buf - 1) break; } buf[n] = 0; close(pfd[0]);
+	int st = 0; waitpid(pid, &st, 0);
+	if (strstr(buf, ": OK")) *said_ok = 1;
+	return WIFEXITED(st) ? WEXITSTATUS(st) : 128 + WTERMSIG(st);
+}
+
 /* ---- seeds ---- */
 typedef struct {
 	uint8_t *bytes; size_t len; int fd; char path[64];
@@ -109,23 +124,31 @@ static void check_damaged(fcase *c) {
 	else for (int i = 0; i < c->nbits; i++) { if (c->bit[i] < lo) lo = c->bit[i]; if (c->bit[i] > hi) hi = c->bit[i]; }
 	bool wide = (hi / 8 - lo / 8 + 1) > sizeof patch;
 	uint8_t *copy = NULL;
-	if (wide) { copy = malloc(rlen); memcpy(copy, s->bytes + roff, rlen); for (int i = 0; i < c->nbits; i++) copy[c->bit[i] / 8] ^= 1u << (c->bit[i] % 8); if (pwrite(s->fd, copy, rlen, roff) != (ssize_t) rlen) abort(); pstart = 0; plen = rlen; }
+	if (wide) { copy = malloc(rlen); memcpy(copy, s->bytes + roff, rlen); for (int i = 0; i < c->nbits; i++) copy[c->bit[i] / 8] ^= 1u << (c->bit[i] % 8); if (pwrite(s->fd, copy, rlen, roff) != (ssize_t) rlen) { fprintf(stderr, "cksum: abort at line %d errno=%d\n", __LINE__, errno); abort(); } pstart = 0; plen = rlen; }
 	else {
 		pstart = lo / 8; plen = hi / 8 - lo / 8 + 1; memcpy(patch, s->bytes + roff + pstart, plen);
 		if (c->is_burst) { for (int j = 0; j < 32; j++) if (c->burst_pat >> j & 1) { uint32_t bit = c->burst_start + j; if (bit < rlen * 8) patch[bit / 8 - pstart] ^= 1u << (bit % 8); } }
 		else for (int i = 0; i < c->nbits; i++) patch[c->bit[i] / 8 - pstart] ^= 1u << (c->bit[i] % 8);
-		if (pwrite(s->fd, patch, plen, roff + pstart) != (ssize_t) plen) abort();
+		if (pwrite(s->fd, patch, plen, roff + pstart) != (ssize_t) plen) { fprintf(stderr, "cksum: abort at line %d errno=%d\n", __LINE__, errno); abort(); }
 	}
 	sigjmp_buf jb;
 	/* (1) mtbl_verify */
 	g_said_ok = g_said_failed = 0;
 	int lowfd = dup(0); close(lowfd);
 	bool vres = false, vabort = false;
-	if (VH_TRY_ASSERT(jb)) { vres = verify_file(s->path); VH_END_ASSERT(); } else { vabort = true; drop_map(); syscall(SYS_close_range, (unsigned) lowfd, ~0U, 0); }
+	if (VH_TRY_ASSERT(jb)) { vres = verify_file(s->path); VH_END_ASSERT(); } else { vabort = true; drop_map(); }
+	/* verify_file() of the tool never closes the descriptor it opens (harmless in a command line tool, fatal in a loop): close it here,
+	 * otherwise later cases could not even open the file and would count as "rejected" for the wrong reason */
+	syscall(SYS_close_range, (unsigned) lowfd, ~0U, 0);
+	if (!vabort && !g_said_failed && !vres && !g_said_ok) vh_violation("verify-silent", "verify_file neither printed OK nor FAILED (could it open the file?)");
 	if (vres || g_said_ok) vh_violation("verify-ok", "mtbl_verify reports the damaged file as OK (returned %d, printed OK %d times)", vres, g_said_ok);
 	else n_verify_failed++;
 	(void) vabort;
 	VH_COUNT("transitions", 1);
+	if (!c->is_burst && c->nbits == 1 && c->bit[0] % 16 == 3) {
+		char pp[64]; snprintf(pp, sizeof pp, "/proc/%d/fd/%d", (int) getpid(), s->fd); int so; int rc = verify_tool(pp, &so);
+		if (rc != -2) { if (rc == 0 || so) vh_violation("verify-tool-ok", "the mtbl_verify binary exits %d and prints OK=%d on the damaged file", rc, so); VH_COUNT("tool_runs", 1); }
+	}
 	/* (2) verify_checksums reader: nothing from the damaged block may be handed out */
 	if (c->region < s->f.nblocks) {
 		size_t b = c->region, first = s->first_idx[b], nb = s->f.blocks[b].n;
@@ -167,8 +190,8 @@ static void check_damaged(fcase *c) {
 		VH_COUNT("transitions", 1);
 	}
 	/* restore */
-	if (wide) { if (pwrite(s->fd, s->bytes + roff, rlen, roff) != (ssize_t) rlen) abort(); free(copy); }
-	else if (pwrite(s->fd, s->bytes + roff + pstart, plen, roff + pstart) != (ssize_t) plen) abort();
+	if (wide) { if (pwrite(s->fd, s->bytes + roff, rlen, roff) != (ssize_t) rlen) { fprintf(stderr, "cksum: abort at line %d errno=%d\n", __LINE__, errno); abort(); } free(copy); }
+	else if (pwrite(s->fd, s->bytes + roff + pstart, plen, roff + pstart) != (ssize_t) plen) { fprintf(stderr, "cksum: abort at line %d errno=%d\n", __LINE__, errno); abort(); }
 	VH_COUNT("cases", 1); VH_COUNT("states", 1);
 	vh_case_end();
 }
@@ -179,8 +202,11 @@ static void seed_must_verify(seed *s, int kind) {
 	fcase c; memset(&c, 0, sizeof c); c.kind = kind; c.nbits = 0;
 	vh_case_begin(render, &c);
 	g_said_ok = 0; sigjmp_buf jb; bool ok = false;
+	int lowfd0 = dup(0); close(lowfd0);
 	if (VH_TRY_ASSERT(jb)) { ok = verify_file(s->path); VH_END_ASSERT(); } else drop_map();
+	syscall(SYS_close_range, (unsigned) lowfd0, ~0U, 0);
 	if (!ok || g_said_ok != 1) vh_violation("intact-rejected", "mtbl_verify does not report the undamaged seed file %d as OK", kind);
+	{ char pp[64]; snprintf(pp, sizeof pp, "/proc/%d/fd/%d", (int) getpid(), s->fd); int so; int rc = verify_tool(pp, &so); if (rc == -2) printf("@error \"cksum: mtbl_verify tool not built\"\n"); else { if (rc != 0 || !so) vh_violation("intact-rejected", "the mtbl_verify binary exits %d / prints OK=%d on the undamaged seed file %d", rc, so, kind); VH_COUNT("tool_runs", 1); } }
 	struct mtbl_reader_options *ro = mtbl_reader_options_init(); mtbl_reader_options_set_verify_checksums(ro, true);
 	struct mtbl_reader *r = NULL; struct mtbl_iter *it = NULL; const char *w = "aborted";
 	if (VH_TRY_ASSERT(jb)) { r = mtbl_reader_init_fd(s->fd, ro); if (r) { it = mtbl_source_iter(mtbl_reader_source(r)); w = tbl_drain_cmp(it, s->all, s->total); } VH_END_ASSERT(); } else drop_map();
@@ -219,7 +245,7 @@ static void enumerate(void (*visit)(fcase *)) {
 		/* bursts: first and last flipped bit <= 12 apart: every interior pattern at every position; spans 13..32 with pattern families */
 		c.is_burst = 1; c.nbits = 0;
 		for (uint32_t st = 0; st < nbits; st++) {
-			if (nbits > 1024 && !vh_thorough && st % 16) continue;
+			if (nbits > 1024 && !vh_thorough && st % 40) continue;
 			for (int span = 2; span <= 12 && st + span <= nbits; span++) {
 				uint32_t interior = span - 2;
 				for (uint32_t m = 0; m < (1u << interior); m++) { c.burst_start = st; c.burst_pat = 1u | (m << 1) | (1u << (span - 1)); visit(&c); }
@@ -253,7 +279,10 @@ static void part1(void) {
 			int fd = tbl_write(&cfg, e, n, NULL);
 			char path[64]; snprintf(path, sizeof path, "/proc/self/fd/%d", fd);
 			g_said_ok = 0;
-			if (!verify_file(path) || g_said_ok != 1) vh_violation("intact-rejected", "mtbl_verify does not report an intact writer-produced file as OK (comp %d, mask %u, values %u, prefix %d)", comps[ci], mask, vc, pf ? 13 : 0);
+			int lowfd1 = dup(0); close(lowfd1);
+			bool vok = verify_file(path);
+			syscall(SYS_close_range, (unsigned) lowfd1, ~0U, 0);
+			if (!vok || g_said_ok != 1) vh_violation("intact-rejected", "mtbl_verify does not report an intact writer-produced file as OK (comp %d, mask %u, values %u, prefix %d)", comps[ci], mask, vc, pf ? 13 : 0);
 			struct mtbl_reader_options *ro = mtbl_reader_options_init(); mtbl_reader_options_set_verify_checksums(ro, true);
 			struct mtbl_reader *r = mtbl_reader_init_fd(fd, ro); mtbl_reader_options_destroy(&ro);
 			if (!r) vh_violation("intact-rejected", "verify_checksums reader refuses an intact file");
